@@ -183,7 +183,7 @@ def single_corruptions(streams, models, rng, truncation_stride=1):
         # 4. metadata
         meta = s.meta
         jb = s.json_bytes()
-        for key, alts in (("version", [2, 4, "3"]), ("ovni.part", [None]), ("ovni.tid", [0]), ("ovni.pid", [0]),
+        for key, alts in (("version", [2, 4, "3", 3.9, 3.0000001, -3]), ("ovni.part", [None]), ("ovni.tid", [0]), ("ovni.pid", [0]),
                           ("ovni.loom", [None]), ("ovni.finished", [0]), ("ovni.require", [None]),
                           ("ovni.lib.version", [None]), ("ovni.lib.commit", [None])):
             m2 = copy.deepcopy(meta)
